@@ -772,6 +772,28 @@ theorem run_logInv {σ : Type} (cb : Cb σ) (l : List Ev) (m : MSt (σ × List (
   | cons e l ih => rw [run_cons]; exact ih _ (step_logInv cb m e h)
 
 
+/-- what the log invariant says about a whole reference traversal: either every recorded code lets the
+traversal go on and the result is success, or the last recorded code (and only it) does not, and the result is
+success for STOP and failure for anything else -/
+theorem traverse_log_cases {σ : Type} (cb : Cb σ) (s : σ) (t : JVal) :
+    ((traverse (withLog cb) (s, []) t).1.toInt = 0 ∧ ∀ x ∈ (traverse (withLog cb) (s, []) t).2.2, GoesOn x.2) ∨
+    (∃ init c r, (traverse (withLog cb) (s, []) t).2.2 = init ++ [(c, r)] ∧ (∀ x ∈ init, GoesOn x.2) ∧ ¬ GoesOn r ∧
+      (traverse (withLog cb) (s, []) t).1.toInt = if r = visitStop then 0 else visitError) := by
+  have hinv := run_logInv cb (events t) ⟨.run, (s, [])⟩ (by intro x hx; simp at hx)
+  unfold traverse
+  unfold run at hinv
+  dsimp only
+  generalize (events t).foldl (step (withLog cb)) ⟨.run, (s, [])⟩ = m at hinv
+  obtain ⟨mode, st⟩ := m
+  cases mode with
+  | halted res =>
+    right
+    obtain ⟨init, c, r, h1, h2, h3, h4⟩ := hinv
+    refine ⟨init, c, r, h1, h2, h3, ?_⟩
+    dsimp only [Mode.result]
+    rw [h4]; split <;> rfl
+  | _ => left; exact ⟨rfl, hinv⟩
+
 /-! ### unfolding `_json_c_visit` -/
 theorem visitNode_first_some {σ : Type} (cb : Cb σ) (s : σ) (v : JVal) (id : Nat) (p : Option Nat) (sl : Slot)
     (c : Int) (h : firstSwitch (cb s ⟨id, v, 0, p, sl⟩).1 = some c) :
